@@ -51,6 +51,7 @@ impl<'t> Worker<'t> {
             return;
         }
         self.tokenizer.build_lattice(&self.sent, &mut self.lattice);
+        self.top_nodes.clear();
         self.lattice.append_top_nodes(&mut self.top_nodes);
     }
 
